@@ -2519,3 +2519,346 @@ func ruleElemAlways(p *Prog, r *Report, names []string) {
 		}
 	}
 }
+
+// ---- round 11b --------------------------------------------------------------------------------------------------------------------------
+
+// ruleParentNotQueried (PAIR.atomic clause, C11): the map in which Remove / RenameKey delete or move an entry is obtained from the
+// map-only parent walker, never from the general path queries (ValueForPath / ValuesForPath look through lists: with a list on the
+// way the "parent" is the first list member that has the key, and the operation succeeds where it must fail).
+func ruleParentNotQueried(p *Prog, r *Report) {
+	const rule = "PAIR.atomic"
+	n := 0
+	for _, f := range p.scopeFuncs(r, rule, []string{"mxj.Map.RenameKey", "mxj.Map.Remove"}) {
+		if len(f.Blocks) == 0 {
+			continue
+		}
+		name := p.Name(f)
+		ord := newOrdinals()
+		check := func(at ssa.Instruction, m ssa.Value, what string) {
+			n++
+			cons := ord.key(name, what+" in a parent found by the map-only walker")
+			bad := ""
+			for x := range backwardSlice(f, m) {
+				if c, ok := x.(*ssa.Call); ok {
+					if g := staticCallee(&c.Call); g != nil {
+						switch p.Name(g) {
+						case "mxj.Map.ValueForPath", "mxj.Map.ValuesForPath", "mxj.Map.ValuesForKey", "mxj.Map.ValueForKey":
+							bad = p.Name(g) + " at " + p.Pos(c.Pos())
+						}
+					}
+				}
+			}
+			if bad == "" {
+				r.OK(rule, name, cons, p.Pos(at.Pos()), "the map written is not the result of a path query")
+			} else {
+				r.Bad(rule, name, cons, p.Pos(at.Pos()), "the map in which the entry is "+what+" comes from "+bad+": path queries descend into lists, so a path whose parent is a list member is applied to the first member instead of being refused")
+			}
+		}
+		eachInstr(f, func(b *ssa.BasicBlock, in ssa.Instruction) {
+			switch x := in.(type) {
+			case *ssa.Call:
+				if isBuiltin(x, "delete") {
+					check(x, x.Call.Args[0], "deleted")
+				}
+			case *ssa.MapUpdate:
+				if isMapShaped(x.Map.Type()) {
+					check(x, x.Map, "written")
+				}
+			}
+		})
+	}
+	if n == 0 {
+		r.Unknown(rule, "mxj.Map.Remove", "parent found by the map-only walker", "-", "no delete / map write found below Remove and RenameKey")
+	}
+}
+
+// ruleDecoderConfig (DECODER.config, C13): every function that creates an xml.Decoder for the element parsers configures it the same
+// way: the same fields are assigned, under the same conditions, and the same configuration helper is called under the same conditions.
+// The stream readers and the direct decoders then treat a document alike whatever CustomDecoder / XmlCharsetReader are set to.
+func ruleDecoderConfig(p *Prog, r *Report) {
+	const rule = "DECODER.config"
+	type site struct {
+		fn  *ssa.Function
+		sig string
+		pos string
+	}
+	var sites []site
+	for _, f := range p.PkgFuncs("mxj") {
+		if len(f.Blocks) == 0 {
+			continue
+		}
+		cz := p.canonFor(f)
+		eachInstr(f, func(b *ssa.BasicBlock, in ssa.Instruction) {
+			c, ok := in.(*ssa.Call)
+			if !ok || !isCallTo(&c.Call, "encoding/xml.NewDecoder") || c.Referrers() == nil {
+				return
+			}
+			// only decoders handed to the element parsers
+			toParser := false
+			var items []string
+			guardsOf := func(blk *ssa.BasicBlock) string {
+				var gs []string
+				for _, g := range dominatingGuards(blk) {
+					ng := normGuard(g)
+					if gl := globalOf(ng.Cond); gl != nil {
+						gs = append(gs, fmt.Sprintf("%s=%v", gl.Name(), ng.Pol))
+					} else if bo, ok := ng.Cond.(*ssa.BinOp); ok {
+						if gl := globalOf(bo.X); gl != nil {
+							gs = append(gs, fmt.Sprintf("%s%s%s=%v", gl.Name(), bo.Op, cz.of(bo.Y), ng.Pol))
+						}
+					}
+				}
+				sortStrings(gs)
+				return "[" + joinStrings(gs, ",") + "]"
+			}
+			for _, ref := range *c.Referrers() {
+				switch x := ref.(type) {
+				case *ssa.Call:
+					g := staticCallee(&x.Call)
+					if g == nil || !p.InModule(g) {
+						continue
+					}
+					if nm := p.Name(g); nm == "mxj.xmlToMapParser" || nm == "mxj.xmlSeqToMapParser" {
+						toParser = true
+						continue
+					}
+					items = append(items, "call "+p.Name(g)+" under "+guardsOf(x.Block()))
+				case *ssa.FieldAddr:
+					for _, r2 := range *x.Referrers() {
+						if st, ok := r2.(*ssa.Store); ok {
+							items = append(items, fieldName(x.X.Type(), x.Field)+" := "+cz.of(st.Val)+" under "+guardsOf(st.Block()))
+						}
+					}
+				}
+			}
+			if !toParser {
+				return
+			}
+			sortStrings(items)
+			sites = append(sites, site{f, joinStrings(items, "; "), p.Pos(c.Pos())})
+		})
+	}
+	if len(sites) < 2 {
+		r.Unknown(rule, "mxj", "decoder set-up sites", "-", fmt.Sprintf("only %d function(s) that create a decoder for the element parsers found", len(sites)))
+		return
+	}
+	// the reference is the majority signature
+	count := map[string]int{}
+	for _, s := range sites {
+		count[s.sig]++
+	}
+	ref, best := "", 0
+	for sg, k := range count {
+		if k > best || (k == best && sg < ref) {
+			ref, best = sg, k
+		}
+	}
+	for _, s := range sites {
+		if s.sig == ref {
+			r.OK(rule, p.Name(s.fn), "decoder configured like its siblings", s.pos, "{"+s.sig+"}")
+		} else {
+			r.Bad(rule, p.Name(s.fn), "decoder configured like its siblings", s.pos, "this function sets its decoder up as {"+s.sig+"}, the other "+fmt.Sprint(best)+" as {"+ref+"}: the same document is decoded differently by the stream readers and by the direct decoders when CustomDecoder / XmlCharsetReader are set")
+		}
+	}
+}
+
+// ruleJsonNoMarshal (TABLE.norewrite clause, C06, C16): below Json / JsonIndent nothing is encoded with json.Marshal / json.MarshalIndent,
+// which always escape <, > and &: the safe-encoding option would have no effect on that path.
+func ruleJsonNoMarshal(p *Prog, r *Report) {
+	const rule = "TABLE.norewrite"
+	for _, n := range []string{"mxj.Map.Json", "mxj.Map.JsonIndent"} {
+		fn := p.Fn(n)
+		if fn == nil {
+			r.Anchor(rule, n)
+			continue
+		}
+		bad := ""
+		for f := range p.Reach(fn) {
+			if !p.InModule(f) || len(f.Blocks) == 0 || (f != fn && p.Exported(f)) {
+				continue
+			}
+			eachInstr(f, func(b *ssa.BasicBlock, in ssa.Instruction) {
+				if c, ok := in.(*ssa.Call); ok && isCallTo(&c.Call, "encoding/json.Marshal", "encoding/json.MarshalIndent") {
+					bad = p.calleeName(&c.Call) + " at " + p.Pos(c.Pos())
+				}
+			})
+		}
+		if bad == "" {
+			r.OK(rule, n, "every encoding path honours the escaping option", p.Pos(fn.Pos()), "no json.Marshal / json.MarshalIndent (which always escape) below this method")
+		} else {
+			r.Bad(rule, n, "every encoding path honours the escaping option", p.Pos(fn.Pos()), "the document can be produced by "+bad+", which escapes <, > and & whatever the safe-encoding option says: that path and the encoder path differ in more than white space")
+		}
+	}
+}
+
+// ruleJsonScanClosing (JSON.escape clause, C13, C19): every '}' the stream scanner receives reaches the place where the brace count is
+// decremented and tested: no branch on the byte sends a closing brace back to the read loop unseen (which is what makes a document
+// that lost its opening brace an error instead of silently skipped text).
+func ruleJsonScanClosing(p *Prog, r *Report, name string) {
+	const rule = "JSON.escape"
+	fn := p.Fn(name)
+	if fn == nil {
+		r.Anchor(rule, name)
+		return
+	}
+	isByte := func(v ssa.Value) bool {
+		u, ok := v.(*ssa.UnOp)
+		if !ok {
+			return false
+		}
+		ia, ok := u.X.(*ssa.IndexAddr)
+		if !ok {
+			return false
+		}
+		k, isK := constInt(ia.Index)
+		return isK && k == 0 && isByteSlice(ia.X.Type())
+	}
+	// the dispatch block: if byte == '}'
+	var disp *ssa.BasicBlock
+	var first *ssa.BasicBlock
+	for _, b := range fn.Blocks {
+		for _, in := range b.Instrs {
+			if u, ok := in.(*ssa.UnOp); ok && isByte(u) && first == nil && innermostLoopHeader(b) != nil {
+				first = b
+			}
+		}
+		if len(b.Instrs) == 0 {
+			continue
+		}
+		if ifi, ok := b.Instrs[len(b.Instrs)-1].(*ssa.If); ok {
+			if bo, ok := ifi.Cond.(*ssa.BinOp); ok && bo.Op == token.EQL && isByte(bo.X) {
+				if k, isK := constInt(bo.Y); isK && k == '}' {
+					disp = b
+				}
+			}
+		}
+	}
+	if disp == nil || first == nil {
+		r.Unknown(rule, name, "a closing brace reaches the brace count", p.Pos(fn.Pos()), "the scanner's test for '}' was not found")
+		return
+	}
+	hdr := innermostLoopHeader(disp)
+	if hdr == nil {
+		r.Unknown(rule, name, "a closing brace reaches the brace count", p.Pos(fn.Pos()), "the scanner's test for '}' is not inside the read loop")
+		return
+	}
+	// start at the loop header and follow the paths on which a byte was received (n != 0)
+	isCount := func(v ssa.Value) bool {
+		ex, ok := v.(*ssa.Extract)
+		if !ok || ex.Index != 0 {
+			return false
+		}
+		c, ok := ex.Tuple.(ssa.CallInstruction)
+		return ok && c.Common().IsInvoke() && c.Common().Method.Name() == "Read"
+	}
+	// inside a string a brace is text: the flag that is switched both on and off by the scanner (in-quote) is followed on its false side only
+	quote := map[ssa.Value]bool{}
+	for _, in := range hdr.Instrs {
+		ph, ok := in.(*ssa.Phi)
+		if !ok {
+			break
+		}
+		if !isBoolType(ph.Type()) {
+			continue
+		}
+		hasT, hasF := false, false
+		seenV := map[ssa.Value]bool{}
+		var walk func(v ssa.Value)
+		walk = func(v ssa.Value) {
+			if seenV[v] {
+				return
+			}
+			seenV[v] = true
+			if b, isC := constBool(v); isC {
+				if b {
+					hasT = true
+				} else {
+					hasF = true
+				}
+				return
+			}
+			if q, ok := v.(*ssa.Phi); ok && q != ph {
+				for _, e := range q.Edges {
+					walk(e)
+				}
+			}
+			// inQuote = !inQuote
+			if u, ok := v.(*ssa.UnOp); ok && u.Op == token.NOT && u.X == ssa.Value(ph) {
+				hasT, hasF = true, true
+			}
+		}
+		for i, pr := range hdr.Preds {
+			if hdr.Dominates(pr) {
+				walk(ph.Edges[i])
+			}
+		}
+		if hasT && hasF {
+			quote[ph] = true
+		}
+	}
+	bad := ""
+	seen := map[*ssa.BasicBlock]bool{hdr: true}
+	work := []*ssa.BasicBlock{hdr}
+	started := false
+	for len(work) > 0 && bad == "" {
+		b := work[len(work)-1]
+		work = work[:len(work)-1]
+		if b == disp {
+			continue
+		}
+		skip := -1
+		if ifi, ok := b.Instrs[len(b.Instrs)-1].(*ssa.If); ok {
+			if bo, ok := ifi.Cond.(*ssa.BinOp); ok && isCount(bo.X) {
+				if k, isK := constInt(bo.Y); isK && k == 0 {
+					switch bo.Op {
+					case token.EQL:
+						skip = 0
+					case token.NEQ, token.GTR:
+						skip = 1
+					}
+				}
+			}
+		}
+		if ifi, ok := b.Instrs[len(b.Instrs)-1].(*ssa.If); ok && skip < 0 {
+			if v, val := boolTest(guard{ifi.Cond, true}); quote[v] {
+				// the true edge establishes quote == val: follow only the side on which the scanner is outside a string
+				if val {
+					skip = 0
+				} else {
+					skip = 1
+				}
+			}
+		}
+		if ifi, ok := b.Instrs[len(b.Instrs)-1].(*ssa.If); ok && skip < 0 {
+			if bo, ok := ifi.Cond.(*ssa.BinOp); ok && isByte(bo.X) {
+				if k, isK := constInt(bo.Y); isK && k != '}' {
+					switch bo.Op {
+					case token.EQL:
+						skip = 0 // the byte is '}': not equal to another constant
+					case token.NEQ:
+						skip = 1
+					}
+				}
+			}
+		}
+		for si, sc := range b.Succs {
+			if si == skip {
+				continue
+			}
+			if sc == hdr && started {
+				bad = p.Pos(firstPos(b))
+				break
+			}
+			if !seen[sc] {
+				seen[sc] = true
+				work = append(work, sc)
+			}
+		}
+		started = true
+	}
+	if bad == "" {
+		r.OK(rule, name, "a closing brace reaches the brace count", p.Pos(firstPos(disp)), "no path feasible for the byte '}' returns to the read without passing the test that counts it")
+	} else {
+		r.Bad(rule, name, "a closing brace reaches the brace count", bad, "a '}' can be sent back to the read loop (from "+bad+") before the scanner has counted it: a closing brace outside a document is skipped instead of reported")
+	}
+}
